@@ -23,7 +23,7 @@ from . import c08
 
 # the race-freedom part of C06 is validated (TSan, traces), not proved: partial by nature (DESIGN.md section 6)
 FORCE_LEVEL = "other"
-HARNESSES = [("dispatch_driver", "asan"), ("dispatch_driver", "tsan"), ("parjob_driver", "tsan")]
+HARNESSES = [("world_driver", "asan"), ("dispatch_driver", "asan"), ("dispatch_driver", "tsan"), ("parjob_driver", "tsan")]
 CORPUS = os.path.join(vlib.VERIF, "corpus", "C06")
 
 TSAN_ENV = {"TSAN_OPTIONS": "halt_on_error=0 report_signal_unsafe=0 second_deadlock_stack=1"}
@@ -256,7 +256,23 @@ def run(ctx):
                     ctx.known(key, "parallel job workers=%d mode=%d still reports %d ThreadSanitizer finding(s) rc=%d" % (args[0], args[5], len(reps), rc))
                     break
 
-    ctx.cov(evaluations=evaluations + tsan_runs, distinct_nontrivial=len(set(scripts)) + len(set(tscripts)) + len(set(jobs)),
+    # bookkeeping under real concurrency, functional side: creation storms from every worker of a parallel job (world harness,
+    # ASan+UBSan): handles returned concurrently are pairwise distinct and valid after run() - a reservation that is not one
+    # atomic step is invisible to ThreadSanitizer (every access is atomic) but shows up here
+    storm_runs = 0
+    if not getattr(ctx, "replay", None):
+        from props import world_common as wc
+        wsess = wc.Session(ctx)
+        for name, ops in wc.stress_impl_only(ctx):
+            storm_runs += 1
+            r = wc.check_impl_only(wsess, ops)
+            if r:
+                ctx.violation(ops, "C06 fails on the implementation (%s, schedule dependent - replay may need repeating): concurrent "
+                              "bookkeeping of a parallel job: %s" % (name, r[1][:400]))
+                break
+
+    ctx.cov(creation_storms=storm_runs)
+    ctx.cov(evaluations=evaluations + tsan_runs + storm_runs, distinct_nontrivial=len(set(scripts)) + len(set(tscripts)) + len(set(jobs)),
             rule="distinct job-shaped scripts (>= 1 job of >= 1 task followed by the barrier) and distinct parallel-job configurations",
             samples=samples + [{"kind": "tsan-job", "args(workers,entities,rounds,seed,inject,mode)": list(a)} for a in jobs[:3]],
             trace_scripts=evaluations, trace_events_checked=total_events, tsan_runs=tsan_runs,
